@@ -171,6 +171,9 @@ func (am *AppMapper) mapResponse(stmt []*sysl.Statement, appName string) map[str
 			returnStatement := strings.Split(stmt[i].GetRet().Payload, " <: ")
 			returnName = returnStatement[0]
 			returnType = am.mapReturnType(returnStatement[1], appName)
+		} else if payload := strings.TrimSpace(stmt[i].GetRet().Payload); isStatusCode(payload) {
+			// `return 204`: a status without a payload, not a type called 204 answering with status 200
+			returnName = payload
 		} else {
 			returnType = am.mapReturnType(stmt[i].GetRet().Payload, appName)
 			// Default return name of 200
@@ -183,6 +186,19 @@ func (am *AppMapper) mapResponse(stmt []*sysl.Statement, appName string) map[str
 		}
 	}
 	return responseTypes
+}
+
+// isStatusCode tells whether a return payload is nothing but an HTTP status code.
+func isStatusCode(payload string) bool {
+	if len(payload) != 3 {
+		return false
+	}
+	for _, c := range payload {
+		if c < '0' || c > '9' {
+			return false
+		}
+	}
+	return true
 }
 
 // Checks if the return value is a complex type such as sequence of string
